@@ -524,6 +524,7 @@ type Contract struct {
 	Ensures  []Clause
 	Modifies []Clause // expressions naming locations: *p, globalVar
 	ModAll   bool
+	ModFS    bool
 	Decreases *Clause
 	Loops    map[int]*LoopSpec
 	Trusted  string
@@ -683,6 +684,11 @@ func (ss *SpecSet) parseContractLines(lines []string, pkgPath, file string) erro
 			case "modifies":
 				if rest == "*" {
 					cur.ModAll = true
+					cur.ModFS = true
+					break
+				}
+				if rest == "files" {
+					cur.ModFS = true // the ghost file system: the function writes files
 					break
 				}
 				for _, part := range splitTop(rest) {
